@@ -105,13 +105,19 @@ Definition ev_is_ret (e : ev) : bool :=
 (** [e] is the response of a dequeue that returned item [x] *)
 Definition is_ret_got (x : item) (e : ev) : bool :=
   match e with
-  | EvCli name [_; _; 1%Z; v; t'; k'] => String.eqb name "ret_deq" && item_eqb x (Z.to_nat t', Z.to_nat k', v)
+  | EvCli name args =>
+      if String.eqb name "ret_deq" then
+        match args with
+        | [_; _; b; v; t'; k'] => Z.eqb b 1 && item_eqb x (Z.to_nat t', Z.to_nat k', v)
+        | _ => false
+        end
+      else false
   | _ => false
   end.
 
 (** number of dequeues that returned [x] *)
 Definition count_ret (x : item) (tr : list (nat * ev)) : nat :=
-  length (filter (fun te => is_ret_got x (snd te)) tr).
+  List.length (filter (fun te => is_ret_got x (snd te)) tr).
 
 Lemma count_ret_app x tr tr' : count_ret x (tr ++ tr') = count_ret x tr + count_ret x tr'.
 Proof. unfold count_ret. rewrite filter_app, app_length. reflexivity. Qed.
@@ -167,7 +173,7 @@ Proof. cbn. intros H. inversion H. apply Nat2Z.inj in H1, H2. auto. Qed.
 Definition cptr (g : G) (s i : nat) : option item := fst (cells g s i).
 Definition cmark (g : G) (s i : nat) : bool := snd (cells g s i).
 (** index of the first segment still in the list (= number of segments removed so far) *)
-Definition lo (g : G) : nat := nalloc g - length (slist g).
+Definition lo (g : G) : nat := nalloc g - List.length (slist g).
 Definition inserted (g : G) (x : item) : Prop := exists s i, cptr g s i = Some x.
 Definition marked (g : G) (x : item) : Prop := exists s i, cells g s i = (Some x, true).
 Definition unmarked_in (g : G) (x : item) : Prop := exists s i, cells g s i = (Some x, false).
@@ -178,7 +184,7 @@ Section Inv.
 
   (** state *)
   Record SI (g : G) : Prop := {
-    si_list : slist g = seq (lo g) (length (slist g)) /\ length (slist g) <= nalloc g;
+    si_list : slist g = seq (lo g) (List.length (slist g)) /\ List.length (slist g) <= nalloc g;
     si_wf : forall s i, cptr g s i = None -> cmark g s i = false;
     si_range : forall s i, cptr g s i <> None -> s < nalloc g /\ i < qf;
     si_uniq : forall x s i s' i', cptr g s i = Some x -> cptr g s' i' = Some x -> s = s' /\ i = i';
@@ -261,3 +267,144 @@ Section Inv.
     inv_mk : forall x, marked g x -> count_ret x tr = 1 \/ exists t, taker (a t) x
   }.
 End Inv.
+
+Arguments PIdle {_}.
+(* phase does not depend on qf, but it was declared inside the section *)
+
+(** ** how the cells may change in one step, seen from thread [t] (another thread's step) *)
+Definition cells_evolve (t : nat) (g g' : G) : Prop :=
+  forall s i,
+    cells g' s i = cells g s i
+    \/ (cptr g s i = None /\ exists z, cells g' s i = (Some z, false) /\ ~ inserted g z /\ fst (fst z) <> t)
+    \/ (exists z, cells g s i = (Some z, false) /\ cells g' s i = (Some z, true)).
+
+Lemma ce_ptr t g g' s i y : cells_evolve t g g' -> cptr g s i = Some y -> cptr g' s i = Some y.
+Proof.
+  intros H K. unfold cptr in *. destruct (H s i) as [E|[[E _]|(z & E1 & E2)]].
+  - now rewrite E.
+  - unfold cptr in E. congruence.
+  - rewrite E1 in K. rewrite E2. exact K.
+Qed.
+
+Lemma ce_ptr_back t g g' s i y :
+  cells_evolve t g g' -> cptr g' s i = Some y -> cptr g s i = Some y \/ (~ inserted g y /\ fst (fst y) <> t).
+Proof.
+  intros H K. unfold cptr in *. destruct (H s i) as [E|[[E (z & E1 & E2 & E3)]|(z & E1 & E2)]].
+  - left. now rewrite <- E.
+  - right. rewrite E1 in K. cbn in K. inversion K; subst. auto.
+  - left. rewrite E2 in K. rewrite E1. exact K.
+Qed.
+
+Lemma ce_mark t g g' s i : cells_evolve t g g' -> cmark g s i = true -> cmark g' s i = true.
+Proof.
+  intros H K. unfold cmark in *. destruct (H s i) as [E|[[E (z & E1 & _)]|(z & E1 & E2)]].
+  - now rewrite E.
+  - unfold cptr in E. destruct (cells g s i) as [p m]. cbn in *. subst.
+    (* a null cell is not marked: not derivable here; the caller supplies well-formedness *)
+    rewrite E1. cbn. (* cannot conclude *) Abort.
+
+Lemma ce_nonnull t g g' s i : cells_evolve t g g' -> cptr g s i <> None -> cptr g' s i <> None.
+Proof.
+  intros H K. destruct (cptr g s i) as [y|] eqn:E; [|congruence]. rewrite (ce_ptr _ _ _ _ _ _ H E). discriminate.
+Qed.
+
+Lemma ce_inserted t g g' y : cells_evolve t g g' -> inserted g y -> inserted g' y.
+Proof. intros H (s & i & K). exists s, i. eapply ce_ptr; eauto. Qed.
+
+Lemma ce_cell_marked t g g' s i y : cells_evolve t g g' -> cells g s i = (Some y, true) -> cells g' s i = (Some y, true).
+Proof.
+  intros H K. destruct (H s i) as [E|[[E _]|(z & E1 & E2)]].
+  - now rewrite E.
+  - unfold cptr in E. rewrite K in E. discriminate.
+  - rewrite K in E1. discriminate.
+Qed.
+
+Lemma ce_marked t g g' y : cells_evolve t g g' -> marked g y -> marked g' y.
+Proof. intros H (s & i & K). exists s, i. eapply ce_cell_marked; eauto. Qed.
+
+Lemma ce_mark qf t g g' s i : SI qf g -> cells_evolve t g g' -> cmark g s i = true -> cmark g' s i = true.
+Proof.
+  intros HS H K. destruct (cells g s i) as [p m] eqn:C. unfold cmark in *. rewrite C in K. cbn in K. subst m.
+  destruct p as [y|].
+  - now rewrite (ce_cell_marked _ _ _ _ _ _ H C).
+  - pose proof (si_wf _ _ HS s i) as W. unfold cptr, cmark in W. rewrite C in W. cbn in W. discriminate (W eq_refl).
+Qed.
+
+Lemma ce_refl t g : cells_evolve t g g.
+Proof. intros s i. left. reflexivity. Qed.
+
+(** how the trace may change in another thread's step *)
+Definition trace_evolve (t : nat) (tr tr' : list (nat * ev)) : Prop :=
+  tr' = tr \/ exists te, tr' = tr ++ [te] /\ forall k, ev_op (snd te) <> Some (t, k).
+
+Lemma te_in t tr tr' e : trace_evolve t tr tr' -> In e (evs tr) -> In e (evs tr').
+Proof. intros [->|(te & -> & _)] H; [exact H|]. rewrite evs_app, in_app_iff. auto. Qed.
+
+Lemma te_cb t tr tr' e1 e2 :
+  trace_evolve t tr tr' -> In e2 (evs tr) -> completed_before tr' e1 e2 -> completed_before tr e1 e2.
+Proof. intros [->|(te & -> & _)] H C; [exact C|]. eapply cb_snoc_old; eauto. Qed.
+
+(** *** stability of a thread's view under the steps of the others *)
+Lemma PH_stable qf g tr t idx ph g' tr' :
+  SI qf g -> TI g tr ->
+  PH g tr t idx ph ->
+  hp g' t 0 = hp g t 0 -> nalloc g <= nalloc g' -> lo g <= lo g' ->
+  cells_evolve t g g' -> trace_evolve t tr tr' ->
+  PH g' tr' t idx ph.
+Proof.
+  intros HS HT HP Hhp Hna Hlo Hce Hte. destruct ph as [|x lb sg vis ins|Sn sg vis hadNull emp hp0|x rd]; cbn in *.
+  - exact I.
+  - destruct HP as (P1 & P2 & P3 & P4 & P5 & P6 & P7). repeat split.
+    + exact P1.
+    + eapply te_in; eauto.
+    + lia.
+    + intros Hins y s i C K. pose proof (te_cb _ _ _ _ _ Hte P2 C) as C0.
+      destruct (ce_ptr_back _ _ _ _ _ _ Hce K) as [K0|[K0 _]].
+      * eapply P4; eauto.
+      * exfalso. apply K0. apply (ti_ret _ _ HT). eapply cb_in1; eauto.
+    + destruct ins.
+      * eapply ce_inserted; eauto.
+      * intros (s & i & K). destruct (ce_ptr_back _ _ _ _ _ _ Hce K) as [K0|[_ K0]].
+        -- apply P5. exists s, i. exact K0.
+        -- destruct P1 as (v & ->). cbn in K0. congruence.
+    + intros s E. specialize (P6 s E). lia.
+    + intros s i E Hi. eapply ce_nonnull; eauto.
+  - destruct HP as (P1 & P2 & P3 & P4 & P5 & P6 & P7 & P8). repeat split.
+    + eapply te_in; eauto.
+    + intros y C. apply P2. eapply te_cb; eauto.
+    + intros y Hy. eapply ce_inserted; eauto.
+    + intros s E. specialize (P4 s E). lia.
+    + intros s i E Hi. destruct (P5 s i E Hi) as [K|[K1 K2]].
+      * left. eapply ce_mark; eauto.
+      * right. split; [exact K1|]. intros y Hy K. destruct (ce_ptr_back _ _ _ _ _ _ Hce K) as [K0|[K0 _]].
+        -- eapply K2; eauto.
+        -- apply K0. auto.
+    + intros Hn s E y s' i' Hy K. destruct (ce_ptr_back _ _ _ _ _ _ Hce K) as [K0|[K0 _]].
+      * eapply P6; eauto.
+      * exfalso. apply K0. auto.
+    + intros He y Hy. eapply ce_marked; eauto.
+    + congruence.
+  - destruct HP as (P1 & P2 & P3). repeat split.
+    + eapply te_in; eauto.
+    + eapply ce_marked; eauto.
+    + intros E. rewrite Hhp. auto.
+Qed.
+
+Lemma VI_stable qf g tr t vw g' tr' :
+  SI qf g -> TI g tr ->
+  VI g tr t vw ->
+  hp g' t 0 = hp g t 0 -> nalloc g <= nalloc g' -> lo g <= lo g' ->
+  cells_evolve t g g' -> trace_evolve t tr tr' ->
+  (v_lock vw <> None -> lockw g' = lockw g /\ slist g' = slist g /\ nalloc g' = nalloc g) ->
+  VI g' tr' t vw.
+Proof.
+  intros HS HT [V1 V2 V3] Hhp Hna Hlo Hce Hte Hlk. split.
+  - intros t' e k Hin Hop. destruct Hte as [->|(te & -> & Hne)].
+    + eapply V1; eauto.
+    + apply in_app_or in Hin. destruct Hin as [Hin|[<-|[]]].
+      * eapply V1; eauto.
+      * exfalso. eapply Hne. exact Hop.
+  - intros l n E. destruct (V2 l n E) as (A & B & C). destruct Hlk as (A' & B' & C'); [congruence|].
+    rewrite A', B', C'. auto.
+  - eapply PH_stable; eauto.
+Qed.
